@@ -47,12 +47,12 @@ LEVEL = {
 }
 # engine -> tier -> (runs, wall budget seconds for the batch)
 BUDGET = {
-    "faultsim": {"quick": (160, 420), "thorough": (800, 3000)},
-    "evalsim": {"quick": (160, 420), "thorough": (2400, 3000)},
-    "prangesim": {"quick": (800, 300), "thorough": (20000, 2400)},
-    "paramsim": {"quick": (3000, 300), "thorough": (60000, 2400)},
-    "fssim": {"quick": (240, 420), "thorough": (4000, 3000)},
-    "regsim": {"quick": (6000, 300), "thorough": (200000, 2400)},
+    "faultsim": {"quick": (160, 420), "thorough": (2400, 3000)},
+    "evalsim": {"quick": (160, 420), "thorough": (7200, 3000)},
+    "prangesim": {"quick": (800, 300), "thorough": (60000, 2400)},
+    "paramsim": {"quick": (3000, 300), "thorough": (180000, 2400)},
+    "fssim": {"quick": (240, 420), "thorough": (12000, 3000)},
+    "regsim": {"quick": (6000, 300), "thorough": (600000, 2400)},
 }
 DETERMINISM_SAMPLE = 6
 FIXED_BASE = 10_000_000  # run indices >= FIXED_BASE address an engine's deterministic fixed plans
